@@ -89,15 +89,16 @@ type event struct {
 }
 
 type Thread struct {
-	ID      int
-	fn      func(t *Thread)
-	resume  chan struct{}
-	done    bool
-	blocked *sync.Mutex
-	gid     int64
-	InOp    bool // set by the harness while an operation of the script is in flight
-	Yields  int
-	s       *Sched
+	parkUntil int // not scheduled before this step unless nothing else is enabled
+	ID        int
+	fn        func(t *Thread)
+	resume    chan struct{}
+	done      bool
+	blocked   *sync.Mutex
+	gid       int64
+	InOp      bool // set by the harness while an operation of the script is in flight
+	Yields    int
+	s         *Sched
 }
 
 type Failure struct {
@@ -112,6 +113,11 @@ func (f *Failure) Error() string {
 }
 
 type Sched struct {
+	// Hot points: when a thread yields at a point that has a plan in Hot, the next entry k of that plan is
+	// consumed; k > 0 parks the thread for k scheduling steps (other enabled threads run meanwhile), so that a
+	// drawn plan of a few numbers reaches "thread A stands exactly here while B completes an operation".
+	Hot        map[int][]int
+	hotIdx     map[int]int
 	threads    []*Thread
 	cur        *Thread
 	events     chan event
@@ -235,10 +241,12 @@ func (s *Sched) Run() *Failure {
 	timer := time.NewTimer(s.StallAfter)
 	defer timer.Stop()
 	enabled := make([]int, 0, len(s.threads))
+	parked0 := make([]int, 0, len(s.threads))
 	curID := -1
 	var blockedSince time.Time
 	for {
 		enabled = enabled[:0]
+		parked := parked0[:0]
 		alive := 0
 		curEnabled := false
 		for _, t := range s.threads {
@@ -252,9 +260,23 @@ func (s *Sched) Run() *Failure {
 				}
 				t.blocked.Unlock()
 			}
+			if t.parkUntil > s.Steps {
+				parked = append(parked, t.ID)
+				continue
+			}
 			enabled = append(enabled, t.ID)
 			if t.ID == curID {
 				curEnabled = true
+			}
+		}
+		if len(enabled) == 0 && len(parked) > 0 {
+			// nothing else can run: the parked threads continue
+			for _, id := range parked {
+				s.threads[id].parkUntil = 0
+				enabled = append(enabled, id)
+				if id == curID {
+					curEnabled = true
+				}
 			}
 		}
 		if alive == 0 {
@@ -303,6 +325,17 @@ func (s *Sched) Run() *Failure {
 			switch ev.kind {
 			case evYield:
 				s.PointHits[ev.point]++
+				if plan := s.Hot[ev.point]; len(plan) > 0 {
+					if s.hotIdx == nil {
+						s.hotIdx = map[int]int{}
+					}
+					if i := s.hotIdx[ev.point]; i < len(plan) {
+						if k := plan[i]; k > 0 {
+							ev.t.parkUntil = s.Steps + k
+						}
+						s.hotIdx[ev.point] = i + 1
+					}
+				}
 			case evDone:
 				ev.t.done = true
 			case evPanic:
